@@ -28,8 +28,9 @@ static int const sets[][6] = {
     {2, 3, 6, 0, 0, 0}, {1, -2, 2, 0, 0, 0}, {0, 0, 5, 0, 0, 0}, {-4, 4, 7, 0, 0, 0},
     {1, 1, 1, 1, 0, 0}, {2, 4, 5, 6, 0, 0}, {0, 0, 3, -4, 0, 0}, {1, 3, 5, 17, 0, 0},
     {1, 1, 1, 2, 3, 0}, {0, 0, 0, 3, 4, 0}, {2, 2, 2, 2, 3, 0},
+    {-7, 4, 4, 0, 0, 0}, {-12, 5, 0, 0, 0, 0}, /* the largest magnitude carries a minus sign (and comes first) */
 };
-static int const lens[] = {0, 1, 1, 2, 2, 2, 3, 3, 3, 3, 4, 4, 4, 4, 5, 5, 5};
+static int const lens[] = {0, 1, 1, 2, 2, 2, 3, 3, 3, 3, 4, 4, 4, 4, 5, 5, 5, 3, 2};
 
 int main(int argc, char **argv)
 {
@@ -216,6 +217,29 @@ int main(int argc, char **argv)
         put_value(f, (double)a_real_rad2deg((a_real)(q * 0.78539816339744830962)));
         fputs(",\"rad4\":", f); put_value(f, (double)a_real_deg2rad((a_real)(45 * q)) / 0.78539816339744830962);
         fputs("}\n", f);
+        ++n_events;
+    }
+    /* norms of components that differ by hundreds of binary orders, the huge one negative, in every position: the result
+       is the huge magnitude (scaled back to 1) - squaring the ratio to a smaller component would overflow */
+    {
+        int const E = sizeof(a_real) == 4 ? 100 : 600;
+        a_real const H = (a_real)ldexp(1.0, E);
+        a_real v[3];
+        fputs("{\"f\":\"normmix\",\"vals\":[", f);
+        int first = 1;
+        for (int pos = 0; pos < 3; ++pos)
+        {
+            for (int sg = -1; sg <= 1; sg += 2)
+            {
+                v[0] = 3; v[1] = 4; v[2] = 2; v[pos] = (a_real)sg * H;
+                double r3 = ldexp((double)a_real_norm3(v[0], v[1], v[2]), -E), rn = ldexp((double)a_real_norm(3, v), -E);
+                double r2 = pos < 2 ? ldexp((double)a_real_norm2(v[0], v[1]), -E) : 1.0;
+                if (!first) { fputc(',', f); }
+                first = 0;
+                put_value(f, r3); fputc(',', f); put_value(f, rn); fputc(',', f); put_value(f, r2);
+            }
+        }
+        fputs("]}\n", f);
         ++n_events;
     }
     fclose(f);
